@@ -34,8 +34,8 @@ PROPS = {
         lean_modules=["L4.Props.C03", "L4.Expect.C03"],
         stages=[dict(name="relay", pkg="./modules/l4proxy/", test="TestVerifRelay", files=RELAY, nq=150, nt=1500),
                 dict(name="relayudp", pkg="./modules/l4proxy/", test="TestVerifRelayUDP", files=RELAY, nq=20, nt=200, lean=False)],
-        level_text="Kernel-checked on a transition system of Handler.proxy and Handle's deferred close (pump goroutine over the chain of TeeReaders, one copy goroutine per upstream counted in the WaitGroup, the main goroutine's wait / CloseWrite / receive, the buffered signal channel) for any number of upstream connections and every interleaving with the client's and the upstreams' sends, half-closes, held-back responses and abrupt closes: what an upstream has received is always a prefix of the client's stream from its first unconsumed byte (exactly the stream minus what is still unread for an upstream that was not reset), the client receives each upstream's bytes in order, nobody observes end-of-stream before the sender finished, a returned handler has closed every upstream connection whatever faults happened, and in every state where nothing can move (no resets, half-close offered, both sides finish) everything was delivered both ways, both sides saw end-of-stream, the handler returned and all upstream connections are closed. The invariant (15 conjuncts) is preserved by all 15 actions. The statement-level protocol the model encodes (tee chain over all upstream conns, copy goroutine per conn in the WaitGroup, pump: copy / signal / half-close all, main: Wait / CloseWrite / receive, capacity of the signal channel, deferred close before proxy, dialPeers closing on error) is regenerated from proxy.go and checked by theorem on every run; the model's terminal state is compared exactly with the real Handle relaying between a client socket and 1-3 loopback upstream servers (TCP and Unix), and every scenario incl. abrupt closes is judged for byte-exactness, end-of-stream propagation, handler return, socket and goroutine leaks.",
-        level_note="Trusted: Lean kernel, extractor AST patterns, harness + driver, io.Copy / io.TeeReader / TCP half-close semantics as modelled (sampled by the differential). Partial: kernel buffering and the exact bytes lost on a reset are environment behaviour (prefix theorems only); downstream conns without CloseWrite (throttle / proxy_protocol wrappers) are modelled (downCW parameter) but not exercised; datagram upstreams (no half-close) are judged by oracle only; finiteness of runs is argued, not yet a theorem.",
+        level_text="Kernel-checked on a transition system of Handler.proxy and Handle's deferred close (pump goroutine over the chain of TeeReaders, one copy goroutine per upstream counted in the WaitGroup, the main goroutine's wait / CloseWrite / receive, the buffered signal channel) for any number of upstream connections and every interleaving with the client's and the upstreams' sends, half-closes, held-back responses and abrupt closes: what an upstream has received is always a prefix of the client's stream from its first unconsumed byte (exactly the stream minus what is still unread for an upstream that was not reset), the client receives each upstream's bytes in order, nobody observes end-of-stream before the sender finished, a returned handler has closed every upstream connection whatever faults happened, and in every state where nothing can move (no resets, half-close offered, both sides finish) everything was delivered both ways, both sides saw end-of-stream, the handler returned and all upstream connections are closed. The invariant (15 conjuncts) is preserved by all 15 actions and every action strictly decreases a measure (every run is finite). The statement-level protocol the model encodes (tee chain over all upstream conns, copy goroutine per conn in the WaitGroup, pump: copy / signal / half-close all, main: Wait / CloseWrite / receive, capacity of the signal channel, deferred close before proxy, dialPeers closing on error) is regenerated from proxy.go and checked by theorem on every run; the model's terminal state is compared exactly with the real Handle relaying between a client socket and 1-3 loopback upstream servers (TCP and Unix), and every scenario incl. abrupt closes is judged for byte-exactness, end-of-stream propagation, handler return, socket and goroutine leaks.",
+        level_note="Trusted: Lean kernel, extractor AST patterns, harness + driver, io.Copy / io.TeeReader / TCP half-close semantics as modelled (sampled by the differential). Partial: kernel buffering and the exact bytes lost on a reset are environment behaviour (prefix theorems only); downstream conns without CloseWrite (throttle / proxy_protocol wrappers) are modelled (downCW parameter) but not exercised; datagram upstreams (no half-close) are judged by oracle only; Every run is finite by a strictly decreasing measure (theorem), so no fairness assumption is used.",
         rule="relay: 1-3 peers on TCP or Unix listeners, 0-10239 prefetched bytes (beyond the 8192-byte buffer of the pump), 0-5 client chunks and 0-5 chunks per upstream of 1-600000 bytes with 0-2 ms pauses, responses held back until the client's end-of-stream, client half-closing promptly / after it saw end-of-stream / after a pause, abrupt close by the client or one upstream at a random point (1 in 4); relayudp: 1-2 datagram upstreams that answer on the first datagram, client half-closing or closing; non-trivial = scenario completed; distinct = distinct observation lines",
         assumptions=["loopback TCP delivers every byte written before a half-close", "a reset may discard unread bytes (prefix-only judgement in fault scenarios)"],
     ),
